@@ -176,6 +176,8 @@ answer("p2", "fb", -340000000)
 end()
 block(5)       # ---- block 10: the block fa's batch 3 expires in
 answer("p2", "fa", -100000000)                   # completes in the expiry block
+answer("p1", "fb", -150000000)
+answer("p2", "fb", 7, "nan")                     # "NaN" next to a number on a max feed: skipped, the maximum is -1.5
 ev("PauseFeed", "u2", "fb")
 end()
 block(5)
